@@ -157,7 +157,9 @@ func refParse(f family, n *xcbor.Node) (d vdata, why string) {
 		return ""
 	}
 	if f == famNtC9 {
-		return d, magic(n)
+		why = magic(n)
+		d.InitiatorOnly = true
+		return d, why
 	}
 	if n.Kind != xcbor.Array {
 		return d, "not-array(" + n.Kind.String() + ")"
